@@ -22,6 +22,12 @@ CLAIMS = {
          "Sender-side verifier: from the proof arm, Ok is unreachable without each of (stored request present, derivation index, sender-address equality, receiver-address equality vs the stored request, signature present, verify Ok over payment_proof_message); the verifier sits between complete_tx and update_stored_tx; exported-proof verifier needs kernel-on-chain and both signatures; one message format at all call sites; export completeness; R6 traces where the stored 'requested receiver' comes from (3 known findings: it comes from the counterparty's reply in the sync/late-lock orders). ed25519 unforgeability and value-level equality not decided."),
  "C17": ("cut-set reachability (no effect before check_ttl Ok) + comparison-shape analysis of the TTL boundary + sibling table of slate-taking entry points", "4 C17",
          "Every api_impl entry point that takes a counterparty slate and reaches an effect is in the step table and its first effect needs the Ok-edge of check_ttl on the incoming slate; refusal edge <=> cutoff != 0 and last_confirmed_height >= cutoff; step-5 cancel <=> tip >= cutoff on outstanding entries; both log-entry creators record the cutoff."),
+ "C07": ("interprocedural effect summaries over the resolved call graph + cut-set reachability + struct-literal provenance", "4 C07",
+         "Per ForeignRpc method the set of reachable storage effects is within its table (check_version none; build_coinbase/receive_tx only add records); records written are fresh (fresh key, Unconfirmed) or the guarded coinbase candidate (repaired defect); receive_tx effects need check_ttl Ok and the no-duplicate edge; finalize effects need a stored context; effects before complete_tx Ok are reported (3 known findings: late-lock ordering). Balance arithmetic not decided."),
+ "C10": ("cut-set reachability + field read/write tables of encoders vs try_encrypt_payload", "4 C10",
+         "Every path to mode=1 clears the plaintext sender, encrypts metadata++payload and replaces the payload by the age output; no sender-bearing field that an encoder serialises is left set (repaired defect); decrypt results are written only after age decrypt + full read Ok and errors propagate; armor decode needs header, footer, full checksum equality with the encoder's generate_check. AEAD/checksum strength not decided."),
+ "C15": ("struct-literal / producer provenance of key ids + cut-set reachability + comparison shape + who-may-call", "4 C15",
+         "Key ids of every saved output come from next_child (directly, through the context, or the guarded coinbase candidate / chain rewind data); next_child returns only after save_child_index+commit Ok with the pre-increment index; only next_child and scan move the index, scan only forwards to max+1; no caller swallows a failed bump. Uniqueness over histories as such is not decided."),
 }
 
 checks = []
